@@ -16,6 +16,7 @@ package main
 import (
 	"bytes"
 	"context"
+	"encoding/binary"
 	"crypto/rand"
 	"crypto/rsa"
 	"crypto/x509"
@@ -168,6 +169,14 @@ func buildReplies(toks []string) (msgs [][]byte, nonces [][]byte, capMask []byte
 						b = append(append([]byte{}, pemKey...), "\n\n"...)
 					case v == "kh": // the first half of a key
 						b = append([]byte{}, pemKey[:len(pemKey)/2]...)
+					case v == "kx" || v == "ky" || v == "kq":
+						// a length field that announces far more than ever arrives (high bit set or not): the
+						// package never completes — Login ends with an error when its context expires
+						hostile := map[string]uint32{"kx": 0xFFFFFFFF, "ky": 0x80000000, "kq": 0x7FFFFFFF}[v]
+						lb := make([]byte, 4)
+						binary.LittleEndian.PutUint32(lb, hostile)
+						data = append(data, append(lb, 1, 2, 3, 4))
+						continue
 					case v == "e":
 						b = nil
 					case strings.HasPrefix(v, "n"):
@@ -493,7 +502,7 @@ func loginImpl(line string) string {
 }
 
 var loginEdits = []string{"la:5", "la:6", "la:7", "dn:0", "dn:2", "dn:1", "dn:16", "dn:256", "dn:32768", "dn:258", "msg:35", "msg:31", "msg:1", "pf:ill", "pf:il", "pf:illl", "pf:lli", "pf:ivl", "pf:ibl", "pf:ilb", "pf:ibb",
-	"pm:i1,k,n16", "pm:i2,k,n16", "pm:i1,kb,n16", "pm:i1,kt,n16", "pm:i1,kw,n16", "pm:i1,kl,n16", "pm:i1,kz,n16", "pm:i1,kn,n16", "pm:i1,kh,n16", "pm:i1,k,n0", "pm:i1,e,n16", "pm:i1,k,n60", "env:2048", "cap:ok", "cap:okz", "cap:zero", "cap:noreq", "cap:nores", "cap:empty", "eed", "ot", "|"}
+	"pm:i1,k,n16", "pm:i2,k,n16", "pm:i1,kb,n16", "pm:i1,kt,n16", "pm:i1,kw,n16", "pm:i1,kl,n16", "pm:i1,kz,n16", "pm:i1,kn,n16", "pm:i1,kh,n16", "pm:i1,kx,n16", "pm:i1,ky,n16", "pm:i1,kq,n16", "pm:i1,k,n0", "pm:i1,e,n16", "pm:i1,k,n60", "env:2048", "cap:ok", "cap:okz", "cap:zero", "cap:noreq", "cap:nores", "cap:empty", "eed", "ot", "|"}
 
 func pmFor(pf string, rng *mrand.Rand) string {
 	var vals []string
@@ -545,7 +554,7 @@ func fixScript(toks []string, rng *mrand.Rand) []string {
 					case 'i':
 						okv = okv && strings.HasPrefix(v, "i")
 					case 'l':
-						okv = okv && (v == "k" || v == "kb" || v == "kt" || v == "kw" || v == "kl" || v == "kz" || v == "kn" || v == "kh" || v == "e" || strings.HasPrefix(v, "n"))
+						okv = okv && (v == "k" || v == "kb" || v == "kt" || v == "kw" || v == "kl" || v == "kz" || v == "kn" || v == "kh" || v == "kx" || v == "ky" || v == "kq" || v == "e" || strings.HasPrefix(v, "n"))
 					case 'v':
 						okv = okv && v == "v"
 					case 'b':
@@ -657,6 +666,9 @@ func init() {
 		Gen:        loginGen,
 		Impl:       loginImpl,
 		Oracle:     txOracle,
+		// a reply whose length field announces more than ever arrives: outside the login model (it works on
+		// delivered packages); judged by the oracle (no success, no crash, an answer when the context expires)
+		NoModel:    func(line string) bool { return strings.Contains(line, ",kx,") || strings.Contains(line, ",ky,") || strings.Contains(line, ",kq,") },
 		Agree:      func(m, i string) bool { return m == txStrip(i) },
 		FindingKey: func(line, out, clause string) string { return clause },
 		Nontrivial: func(line, out string) bool { return !strings.HasPrefix(out, "error 0") },
